@@ -28,6 +28,8 @@ type genCfg struct {
 	faults     string // "", "io", "llu"
 	alloc      float64
 	bigVals    float64
+	bigKV      float64 // boundary-length key/value probes (C19)
+	maxValue   bool    // ... including a value of 2^28-1 bytes (thorough tier)
 	idle       float64 // probability that the idle merger is enabled
 	tinyDirty  float64
 	finalClose bool
@@ -67,6 +69,8 @@ func Gen(prop string, seed uint64, index int, tier string) *Case {
 		if tier == "thorough" {
 			cfg.maxOps = cfg.maxOps * 5 / 2
 			c.Flags["tier-thorough"] = true
+			cfg.maxValue = true
+			cfg.bigKV *= 3
 		}
 		genSingle(c, r, cfg)
 	}
@@ -156,6 +160,7 @@ func propCfg(prop string) genCfg {
 		base.clockW = 6
 	case "C19":
 		base.flags = []string{"verifyEach", "storeEach", "finalVerify", "finalReopen", "limits"}
+		base.bigKV = 0.0015 // such a run takes 1-3 s (fresh 16 MiB buffers are page-fault bound in this VM)
 		base.weirdKeys = 1
 		base.alloc = 0.5
 		base.bigVals = 0.5
@@ -264,6 +269,11 @@ func keyPool(r *simrt.Rand, weird bool) [][]byte {
 		n := 4 + r.Intn(6)
 		for i := 0; i < n; i++ {
 			pool = append(pool, cands[r.Intn(len(cands))])
+		}
+		if r.Chance(0.1) {
+			// lengths around 2^16 (in the model, unlike the 2^24-1 byte key of bigkv)
+			n := pick(r, []int{65535, 65536, 70001})
+			pool = append(pool, append(bytesRepeat(byte(pick(r, []int{0, 'k', 0xff})), n-1), 'z'))
 		}
 		// dedupe
 		seen := map[string]bool{}
@@ -552,6 +562,19 @@ func genSingle(c *Case, r *simrt.Rand, cfg genCfg) {
 			} else {
 				c.Prog = append(c.Prog, Op{Kind: "revert", N: r.Intn(4), Flag: r.Chance(0.5)})
 			}
+		}
+	}
+	if cfg.bigKV > 0 && c.Opts.Backing != "mapll" && r.Chance(cfg.bigKV) {
+		// a key of exactly 2^24-1 bytes (and now and then a value of 2^28-1
+		// bytes) somewhere in the program
+		nb := 1 + r.Intn(2)
+		for i := 0; i < nb; i++ {
+			op := Op{Kind: "bigkv", M: r.Intn(4), N: r.Intn(2), Flag: r.Chance(0.4)}
+			if cfg.maxValue && r.Chance(0.25) {
+				op.N = 2
+			}
+			at := r.Intn(len(c.Prog) + 1)
+			c.Prog = append(c.Prog[:at], append([]Op{op}, c.Prog[at:]...)...)
 		}
 	}
 	if c.Opts.Backing != "mem" && (c.Prop == "C20" || c.Prop == "C11" || c.Prop == "C04") && r.Chance(0.7) {
